@@ -341,25 +341,27 @@ Proof.
   cbn in H. unfold mem in H. destruct (lookup k' t); [discriminate|auto].
 Qed.
 
-Lemma update_row_shape sch en sets inc s kr s' :
-  update_row sch en sets inc s kr = WOk s' -> step_shape sch (w_t s) (w_t s').
+Lemma update_row_shape bl sch en sets inc s kr s' :
+  update_row bl sch en sets inc s kr = WOk s' -> step_shape sch (w_t s) (w_t s').
 Proof.
   unfold update_row. destruct kr as [k old].
   destruct (apply_sets en sets old) as [vals|]; [|discriminate].
   destruct (row_eqb vals old); [intro H; inversion H; now left|].
+  destruct (bl (key_of sch vals)); [discriminate|].
   destruct (negb (key_eqb (key_of sch vals) k) && mem (key_of sch vals) (w_t s)) eqn:C; [discriminate|].
   intro H; inversion H; cbn. right. do 3 eexists. split; [reflexivity|].
   split; [now apply free_after_remove|reflexivity].
 Qed.
 
-Lemma insert_row_shape sch en mode idx ondup s es s' :
-  insert_row sch en mode idx ondup s es = WOk s' -> step_shape sch (w_t s) (w_t s').
+Lemma insert_row_shape bl sch en mode idx ondup s es s' :
+  insert_row bl sch en mode idx ondup s es = WOk s' -> step_shape sch (w_t s) (w_t s').
 Proof.
   unfold insert_row.
   destruct (do g <- given_values en (s_cols sch) idx es (map (fun _ => None) (s_cols sch));
             fill_defaults (s_cols sch) g) as [vals0|]; [|discriminate].
   destruct (gen_auto (s_cols sch) vals0 (w_auto s) (w_last s)) as [[vals1 auto1] last1].
   destruct (store_all (s_cols sch) vals1 auto1) as [auto2 [vals|]]; [|discriminate].
+  destruct (bl (key_of sch vals)); [discriminate|].
   destruct (lookup (key_of sch vals) (w_t s)) as [old|] eqn:L.
   - destruct ondup as [|x ondup].
     + destruct mode; intro H; inversion H; cbn.
@@ -383,8 +385,8 @@ Qed.
 Lemma remove_keys_wf ks t : tbl_wf t -> tbl_wf (remove_keys ks t).
 Proof. apply filter_wf. Qed.
 
-Lemma exec_rows_cases sch st s args :
-  let r := exec sch st s args in
+Lemma exec_rows_cases bl sch st s args :
+  let r := exec_l bl sch st s args in
   ts_rows (r_state r) = ts_rows st
   \/ (exists ks, ts_rows (r_state r) = remove_keys ks (ts_rows st))
   \/ (exists A (f : wstate -> A -> wres) l s0 s1,
@@ -392,7 +394,7 @@ Lemma exec_rows_cases sch st s args :
         w_t s0 = ts_rows st /\ wfold f l s0 = WOk s1 /\ ts_rows (r_state r) = w_t s1).
 Proof.
   destruct s as [f w o lim fu|mode names rows ondup|sets w o lim|w o lim]; cbn.
-  - now left.
+  - destruct (exec_select_l bl sch (ts_rows st) f w o lim fu args). now left.
   - unfold exec_insert.
     destruct (match names with Some ns => resolve_cols (s_cols sch) ns [] | None => Ok _ end) as [idx|];
       [|now left].
@@ -405,6 +407,7 @@ Proof.
     + now left.
   - unfold exec_update. destruct (negb _); [now left|].
     destruct (select_rows _ w o lim (ts_rows st)) as [sel|]; [|now left].
+    destruct (existsb bl (keys sel)); [now left|].
     match goal with |- context [wfold ?f ?l ?s0] => destruct (wfold f l s0) as [s1|] eqn:W end; cbn.
     + right; right. do 5 eexists. split; [|split; [|split; [exact W|reflexivity]]].
       * intros; eapply update_row_shape; eauto.
@@ -412,14 +415,15 @@ Proof.
     + now left.
   - unfold exec_delete. destruct (negb _); [now left|].
     destruct (select_rows _ w o lim (ts_rows st)) as [sel|]; [|now left].
+    destruct (existsb bl (keys sel)); [now left|].
     cbn. right; left. eauto.
 Qed.
 
-(* exec preserves key uniqueness *)
-Theorem exec_preserves_wf sch st s args :
-  tbl_wf (ts_rows st) -> tbl_wf (ts_rows (r_state (exec sch st s args))).
+(* exec preserves key uniqueness (whatever other transactions have locked) *)
+Theorem exec_l_preserves_wf bl sch st s args :
+  tbl_wf (ts_rows st) -> tbl_wf (ts_rows (r_state (exec_l bl sch st s args))).
 Proof.
-  intro W. destruct (exec_rows_cases sch st s args) as [E|[[ks E]|[A [f [l [s0 [s1 [Hf [E0 [Wf E]]]]]]]]]];
+  intro W. destruct (exec_rows_cases bl sch st s args) as [E|[[ks E]|[A [f [l [s0 [s1 [Hf [E0 [Wf E]]]]]]]]]];
     rewrite E.
   - exact W.
   - now apply remove_keys_wf.
@@ -428,11 +432,15 @@ Proof.
     + now rewrite E0.
 Qed.
 
+Theorem exec_preserves_wf sch st s args :
+  tbl_wf (ts_rows st) -> tbl_wf (ts_rows (r_state (exec sch st s args))).
+Proof. apply exec_l_preserves_wf. Qed.
+
 (* exec keeps the rows in primary-key order *)
-Theorem exec_preserves_sorted sch st s args :
-  sorted (ts_rows st) -> sorted (ts_rows (r_state (exec sch st s args))).
+Theorem exec_l_preserves_sorted bl sch st s args :
+  sorted (ts_rows st) -> sorted (ts_rows (r_state (exec_l bl sch st s args))).
 Proof.
-  intro W. destruct (exec_rows_cases sch st s args) as [E|[[ks E]|[A [f [l [s0 [s1 [Hf [E0 [Wf E]]]]]]]]]];
+  intro W. destruct (exec_rows_cases bl sch st s args) as [E|[[ks E]|[A [f [l [s0 [s1 [Hf [E0 [Wf E]]]]]]]]]];
     rewrite E.
   - exact W.
   - now apply sorted_filter.
@@ -441,17 +449,22 @@ Proof.
     + now rewrite E0.
 Qed.
 
-(* SELECT (also FOR UPDATE) leaves table and counter alone *)
-Theorem select_leaves_state sch st f w o lim fu args :
-  r_state (exec sch st (SSelect f w o lim fu) args) = st.
-Proof. reflexivity. Qed.
+Theorem exec_preserves_sorted sch st s args :
+  sorted (ts_rows st) -> sorted (ts_rows (r_state (exec sch st s args))).
+Proof. apply exec_l_preserves_sorted. Qed.
 
-(* a refused statement leaves no trace in the rows (the AUTO_INCREMENT counter
-   may have advanced: it is not transactional) *)
-Theorem failed_statement_leaves_rows sch st s args e :
-  r_out (exec sch st s args) = Fail e -> ts_rows (r_state (exec sch st s args)) = ts_rows st.
+(* SELECT (also FOR UPDATE) leaves table and counter alone *)
+Theorem select_leaves_state bl sch st f w o lim fu args :
+  r_state (exec_l bl sch st (SSelect f w o lim fu) args) = st.
+Proof. cbn. now destruct (exec_select_l bl sch (ts_rows st) f w o lim fu args). Qed.
+
+(* a refused statement (1205 included) leaves no trace in the rows (the
+   AUTO_INCREMENT counter may have advanced: it is not transactional) *)
+Theorem failed_statement_leaves_rows bl sch st s args e :
+  r_out (exec_l bl sch st s args) = Fail e -> ts_rows (r_state (exec_l bl sch st s args)) = ts_rows st.
 Proof.
   destruct s as [f w o lim fu|mode names rows ondup|sets w o lim|w o lim]; cbn; auto.
+  - now destruct (exec_select_l bl sch (ts_rows st) f w o lim fu args).
   - unfold exec_insert.
     destruct (match names with Some ns => resolve_cols (s_cols sch) ns [] | None => Ok _ end) as [idx|]; auto.
     destruct (negb (arity_ok _ _ rows)); auto.
@@ -460,12 +473,17 @@ Proof.
     discriminate.
   - unfold exec_update. destruct (negb _); auto.
     destruct (select_rows _ w o lim (ts_rows st)) as [sel|]; auto.
+    destruct (existsb bl (keys sel)); auto.
     match goal with |- context [wfold ?f ?l ?s0] => destruct (wfold f l s0) as [s1|] end; cbn; auto.
     discriminate.
   - unfold exec_delete. destruct (negb _); auto.
     destruct (select_rows _ w o lim (ts_rows st)) as [sel|]; cbn; auto.
+    destruct (existsb bl (keys sel)); cbn; auto.
     discriminate.
 Qed.
+
+Lemma existsb_no_block ks : existsb no_block ks = false.
+Proof. induction ks; cbn; auto. Qed.
 
 (* ================================================================ DELETE *)
 (* DELETE removes exactly the selected rows: those are existing rows whose
@@ -482,8 +500,9 @@ Theorem delete_removes_exactly sch st w o lim args n l :
     forall k, lookup k (ts_rows (r_state (exec sch st (SDelete w o lim) args))) =
               if existsb (key_eqb k) (keys sel) then None else lookup k (ts_rows st).
 Proof.
-  cbn. unfold exec_delete. destruct (negb _); cbn; [discriminate|].
+  unfold exec. cbn. unfold exec_delete. destruct (negb _); cbn; [discriminate|].
   destruct (select_rows (mk_env sch args) w o lim (ts_rows st)) as [sel|] eqn:S; cbn; [|discriminate].
+  rewrite existsb_no_block; cbn.
   intro H; inversion H; subst. exists sel.
   destruct (select_rows_sound _ _ _ _ _ _ S) as [A B].
   repeat split; auto; try apply A; auto.
@@ -551,8 +570,8 @@ Theorem delete_count sch st w o lim args n l :
   Z.of_nat (length (ts_rows st)) - n.
 Proof.
   intros W H. destruct (delete_removes_exactly _ _ _ _ _ _ _ _ H) as [sel [S [N [A [Ws _]]]]].
-  revert H. cbn. unfold exec_delete. destruct (negb _); cbn; [discriminate|].
-  rewrite S. cbn. intros _. subst n. unfold remove_keys.
+  revert H. unfold exec. cbn. unfold exec_delete. destruct (negb _); cbn; [discriminate|].
+  rewrite S. cbn. rewrite existsb_no_block; cbn. intros _. subst n. unfold remove_keys.
   pose proof (filter_partition_length (fun kr => existsb (key_eqb (fst kr)) (keys sel)) (ts_rows st)) as P.
   rewrite (selected_count _ _ W (Ws W) (fun kr I => proj1 (A kr I))) in P. lia.
 Qed.
@@ -642,8 +661,9 @@ Theorem update_frame sch st sets w o lim args n l :
               matchesb (mk_env sch args) w r = false ->
               lookup k (ts_rows (r_state (exec sch st (SUpdate sets w o lim) args))) = Some r.
 Proof.
-  intro W. cbn. unfold exec_update. destruct (negb _); cbn; [discriminate|].
+  intro W. unfold exec. cbn. unfold exec_update. destruct (negb _); cbn; [discriminate|].
   destruct (select_rows (mk_env sch args) w o lim (ts_rows st)) as [sel|] eqn:S; cbn; [|discriminate].
+  rewrite existsb_no_block; cbn.
   destruct (select_rows_sound _ _ _ _ _ _ S) as [A _].
   match goal with |- context [wfold ?f ?l ?s0] => destruct (wfold f l s0) as [s1|] eqn:F end; cbn;
     [|discriminate].
@@ -672,7 +692,7 @@ Qed.
 
 (* ================================================================ INSERT *)
 Lemma insert_row_plain_step sch en idx s es s' :
-  insert_row sch en InsPlain idx [] s es = WOk s' ->
+  insert_row no_block sch en InsPlain idx [] s es = WOk s' ->
   exists k vals, lookup k (w_t s) = None /\ w_t s' = put k vals (w_t s) /\
                  w_aff s' = w_aff s + 1.
 Proof.
@@ -681,19 +701,20 @@ Proof.
             fill_defaults (s_cols sch) g) as [vals0|]; [|discriminate].
   destruct (gen_auto (s_cols sch) vals0 (w_auto s) (w_last s)) as [[vals1 auto1] last1].
   destruct (store_all (s_cols sch) vals1 auto1) as [auto2 [vals|]]; [|discriminate].
+  cbn [no_block].
   destruct (lookup (key_of sch vals) (w_t s)) as [old|] eqn:L; [discriminate|].
   intro H; inversion H; cbn. eauto.
 Qed.
 
 Lemma insert_plain_fold sch en idx rows : forall s s',
-  wfold (insert_row sch en InsPlain idx []) rows s = WOk s' ->
+  wfold (insert_row no_block sch en InsPlain idx []) rows s = WOk s' ->
   w_aff s' = w_aff s + Z.of_nat (length rows) /\
   length (w_t s') = (length (w_t s) + length rows)%nat /\
   forall k r, lookup k (w_t s) = Some r -> lookup k (w_t s') = Some r.
 Proof.
   induction rows as [|es rows IH]; cbn [wfold]; intros s s' H.
   - inversion H; subst. cbn. repeat split; auto; lia.
-  - destruct (insert_row sch en InsPlain idx [] s es) as [s1|] eqn:E; [|discriminate].
+  - destruct (insert_row no_block sch en InsPlain idx [] s es) as [s1|] eqn:E; [|discriminate].
     apply insert_row_plain_step in E. destruct E as [k [vals [L [T A]]]].
     destruct (IH _ _ H) as [A' [Len Keep]]. repeat split.
     + rewrite A', A. cbn [length]. lia.
@@ -715,7 +736,7 @@ Theorem insert_adds_exactly sch st names rows args :
   | OkRows _ => False
   end.
 Proof.
-  cbn. unfold exec_insert.
+  unfold exec. cbn. unfold exec_insert.
   destruct (match names with Some ns => resolve_cols (s_cols sch) ns [] | None => Ok _ end) as [idx|];
     cbn; auto.
   destruct (negb (arity_ok _ _ rows)); cbn; auto.
@@ -732,7 +753,7 @@ Theorem insert_duplicate_key_1062 sch en idx s es :
   gen_auto (s_cols sch) vals0 (w_auto s) (w_last s) = (vals1, auto1, last1) ->
   store_all (s_cols sch) vals1 auto1 = (auto2, Ok vals) ->
   lookup (key_of sch vals) (w_t s) = Some old ->
-  insert_row sch en InsPlain idx [] s es = WFail auto2 (EErr E_DUP).
+  insert_row no_block sch en InsPlain idx [] s es = WFail auto2 (w_locks s ++ [key_of sch vals]) (EErr E_DUP).
 Proof.
   intros * H1 H2 H3 H4. unfold insert_row. rewrite H1, H2, H3, H4. reflexivity.
 Qed.
@@ -742,14 +763,14 @@ Qed.
    is free and otherwise an update of the row that holds the key, with
    VALUES(col) reading the row that would have been inserted *)
 Theorem upsert_is_insert_or_update sch en mode idx x ondup s es s' :
-  insert_row sch en mode idx (x :: ondup) s es = WOk s' ->
+  insert_row no_block sch en mode idx (x :: ondup) s es = WOk s' ->
   (exists k vals, lookup k (w_t s) = None /\ w_t s' = put k vals (w_t s) /\
                   w_aff s' = w_aff s + 1)
   \/
   (exists k old vals s1,
       lookup k (w_t s) = Some old /\ k = key_of sch vals /\
       w_t s1 = w_t s /\ w_aff s1 = w_aff s /\
-      update_row sch {| e_cols := s_cols sch; e_row := []; e_args := e_args en; e_ins := Some vals |}
+      update_row no_block sch {| e_cols := s_cols sch; e_row := []; e_args := e_args en; e_ins := Some vals |}
                  (x :: ondup) 2 s1 (k, old) = WOk s').
 Proof.
   unfold insert_row.
@@ -757,23 +778,26 @@ Proof.
             fill_defaults (s_cols sch) g) as [vals0|]; [|discriminate].
   destruct (gen_auto (s_cols sch) vals0 (w_auto s) (w_last s)) as [[vals1 auto1] last1].
   destruct (store_all (s_cols sch) vals1 auto1) as [auto2 [vals|]]; [|discriminate].
+  cbn [no_block].
   destruct (lookup (key_of sch vals) (w_t s)) as [old|] eqn:L.
   - intro H. right.
     exists (key_of sch vals), old, vals,
-      {| w_t := w_t s; w_auto := auto2; w_aff := w_aff s; w_last := last1 |}.
+      {| w_t := w_t s; w_auto := auto2; w_aff := w_aff s; w_last := last1;
+         w_locks := w_locks s ++ [key_of sch vals] |}.
     cbn. repeat split; auto.
   - intro H; inversion H; cbn. left. eauto.
 Qed.
 
 Lemma insert_row_plain_any sch en mode idx ondup s es s' :
-  insert_row sch en InsPlain idx [] s es = WOk s' ->
-  insert_row sch en mode idx ondup s es = WOk s'.
+  insert_row no_block sch en InsPlain idx [] s es = WOk s' ->
+  insert_row no_block sch en mode idx ondup s es = WOk s'.
 Proof.
   unfold insert_row.
   destruct (do g <- given_values en (s_cols sch) idx es (map (fun _ => None) (s_cols sch));
             fill_defaults (s_cols sch) g) as [vals0|]; [|discriminate].
   destruct (gen_auto (s_cols sch) vals0 (w_auto s) (w_last s)) as [[vals1 auto1] last1].
   destruct (store_all (s_cols sch) vals1 auto1) as [auto2 [vals|]]; [|discriminate].
+  cbn [no_block].
   destruct (lookup (key_of sch vals) (w_t s)) as [old|] eqn:L; [discriminate|auto].
 Qed.
 
@@ -783,21 +807,21 @@ Theorem upsert_without_conflict_is_insert sch st mode names rows ondup args n l 
   r_out (exec sch st (SInsert InsPlain names rows []) args) = OkMod n l ->
   exec sch st (SInsert mode names rows ondup) args = exec sch st (SInsert InsPlain names rows []) args.
 Proof.
-  intro OK. cbn. unfold exec_insert.
+  intro OK. unfold exec. cbn. unfold exec_insert.
   destruct (match names with Some ns => resolve_cols (s_cols sch) ns [] | None => Ok _ end) as [idx|];
     cbn; auto.
   destruct (negb (arity_ok _ _ rows)); cbn; auto.
   apply andb_true_iff in OK. destruct OK as [O1 O2]. rewrite O1, O2.
   cbn [sets_ok all_cols_ok map forallb]. rewrite !andb_true_r.
   destruct (negb (forallb (all_cols_ok (s_cols sch)) rows)); cbn; auto.
-  match goal with |- context [wfold (insert_row ?a ?b InsPlain ?c []) ?l ?s0] =>
-    destruct (wfold (insert_row a b InsPlain c []) l s0) as [s1|] eqn:F end; cbn; [|discriminate].
+  match goal with |- context [wfold (insert_row ?z ?a ?b InsPlain ?c []) ?l ?s0] =>
+    destruct (wfold (insert_row z a b InsPlain c []) l s0) as [s1|] eqn:F end; cbn; [|discriminate].
   intros _.
   assert (G : forall rows s0 s1,
-             wfold (insert_row sch (mk_env sch args) InsPlain idx []) rows s0 = WOk s1 ->
-             wfold (insert_row sch (mk_env sch args) mode idx ondup) rows s0 = WOk s1).
+             wfold (insert_row no_block sch (mk_env sch args) InsPlain idx []) rows s0 = WOk s1 ->
+             wfold (insert_row no_block sch (mk_env sch args) mode idx ondup) rows s0 = WOk s1).
   { clear. induction rows as [|es rows IH]; cbn; auto. intros s0 s1.
-    destruct (insert_row sch (mk_env sch args) InsPlain idx [] s0 es) as [s2|] eqn:E; [|discriminate].
+    destruct (insert_row no_block sch (mk_env sch args) InsPlain idx [] s0 es) as [s2|] eqn:E; [|discriminate].
     rewrite (insert_row_plain_any _ _ mode _ ondup _ _ _ E). apply IH. }
   now rewrite (G _ _ _ F).
 Qed.
@@ -854,7 +878,7 @@ Proof. split; vm_compute; reflexivity. Qed.
 (* INSERT INTO t (id) VALUES (2): duplicate key, nothing changes *)
 Example insert_duplicate_nonvacuous :
   exec sch st0 (SInsert InsPlain (Some [c_id]) [[ELit (VInt 2)]] []) [] =
-  {| r_state := st0; r_out := Fail (EErr E_DUP) |}.
+  {| r_state := st0; r_out := Fail (EErr E_DUP); r_locks := [[VInt 2]] |}.
 Proof. vm_compute; reflexivity. Qed.
 
 (* INSERT INTO t (name) VALUES ('z'), (?): two generated keys, LAST_INSERT_ID = the first *)
@@ -863,7 +887,7 @@ Example insert_auto_nonvacuous :
   {| r_state := {| ts_rows := ts_rows st0 ++ [([VInt 5], [VInt 5; VStr [x7a]; VInt 7]);
                                                ([VInt 6], [VInt 6; VStr [x79]; VInt 7])];
                    ts_auto := 7 |};
-     r_out := OkMod 2 5 |}.
+     r_out := OkMod 2 5; r_locks := [[VInt 5]; [VInt 6]] |}.
 Proof. vm_compute; reflexivity. Qed.
 
 (* INSERT INTO t (id, age) VALUES (2, 1) ON DUPLICATE KEY UPDATE age = VALUES(age) + age *)
@@ -908,7 +932,7 @@ Definition keeps_key (sch : schema) (sets : list (bytes * expr)) : Prop :=
 Definition keyed (sch : schema) (t : tbl) : Prop := forall k r, In (k, r) t -> k = key_of sch r.
 
 Lemma upd_fold sch en sets : e_cols en = s_cols sch -> keeps_key sch sets -> forall sel s s',
-  wfold (update_row sch en sets 1) sel s = WOk s' ->
+  wfold (update_row no_block sch en sets 1) sel s = WOk s' ->
   NoDup (keys sel) ->
   (forall k old, In (k, old) sel -> lookup k (w_t s) = Some old /\ k = key_of sch old) ->
   (forall k, ~ In k (keys sel) -> lookup k (w_t s') = lookup k (w_t s)) /\
@@ -916,7 +940,7 @@ Lemma upd_fold sch en sets : e_cols en = s_cols sch -> keeps_key sch sets -> for
 Proof.
   intros EC KK. induction sel as [|[k0 old] rest IH]; cbn [wfold]; intros s s' H ND Hsel.
   - inversion H; subst. cbn. split; auto. lia.
-  - destruct (update_row sch en sets 1 s (k0, old)) as [s1|] eqn:E; [|discriminate].
+  - destruct (update_row no_block sch en sets 1 s (k0, old)) as [s1|] eqn:E; [|discriminate].
     cbn in ND. inversion ND as [|? ? N0 ND']; subst.
     destruct (Hsel k0 old (or_introl eq_refl)) as [L0 K0].
     assert (Step : (w_t s1 = w_t s /\ w_aff s1 = w_aff s /\ lookup k0 (w_t s1) = Some old) \/
@@ -955,8 +979,9 @@ Theorem update_count sch st sets w o lim args n l :
   n = Z.of_nat (length (filter (changedb (ts_rows (r_state (exec sch st (SUpdate sets w o lim) args))))
                                (ts_rows st))).
 Proof.
-  intros W KD KK. cbn. unfold exec_update. destruct (negb _); cbn; [discriminate|].
+  intros W KD KK. unfold exec. cbn. unfold exec_update. destruct (negb _); cbn; [discriminate|].
   destruct (select_rows (mk_env sch args) w o lim (ts_rows st)) as [sel|] eqn:S; cbn; [|discriminate].
+  rewrite existsb_no_block; cbn.
   destruct (select_rows_sound _ _ _ _ _ _ S) as [A B]. specialize (B W).
   match goal with |- context [wfold ?f ?l ?s0] => destruct (wfold f l s0) as [s1|] eqn:F end; cbn;
     [|discriminate].
@@ -1012,10 +1037,10 @@ Proof.
 Qed.
 
 (* exec keeps every row under the key computed from its own columns *)
-Theorem exec_preserves_keyed sch st s args :
-  keyed sch (ts_rows st) -> keyed sch (ts_rows (r_state (exec sch st s args))).
+Theorem exec_preserves_keyed bl sch st s args :
+  keyed sch (ts_rows st) -> keyed sch (ts_rows (r_state (exec_l bl sch st s args))).
 Proof.
-  intro W. destruct (exec_rows_cases sch st s args) as [E|[[ks E]|[A [f [l [s0 [s1 [Hf [E0 [Wf E]]]]]]]]]];
+  intro W. destruct (exec_rows_cases bl sch st s args) as [E|[[ks E]|[A [f [l [s0 [s1 [Hf [E0 [Wf E]]]]]]]]]];
     rewrite E.
   - exact W.
   - intros k r I. apply filter_In in I. apply W, I.
